@@ -39,7 +39,7 @@ class C39(vlib.Spec):
         return cases
 
     def n_cases(self, tier):
-        return 260 if tier == "quick" else 2400
+        return 500 if tier == "quick" else 4000
 
     def to_coq(self, case, res):
         return proto.quorum_term(case, res)
